@@ -18,6 +18,7 @@ import numpy as np
 from wgverif import env  # noqa: F401
 from wgverif.checks import _hydro as HY
 from wgverif.models import eos as E
+from wgverif.models import potentials as P
 from wgverif.oracles import fluid as F
 
 PROPERTY = "C05"
@@ -37,11 +38,15 @@ SETTINGS = [(1e-6, 1e-10), (1e-8, 1e-10)]
 MARGIN = 1e-3
 FLOORS = {
     "quick": {"distinct_nontrivial": 60,
-              "mon": {"findvwLTE": 80, "scan_matchings": 1500},
-              "cls": {"interior": 15, "sentinel-1": 6, "sentinel-0": 2}},
+              "mon": {"findvwLTE": 80, "scan_matchings": 1500, "manager.wallSpeedLTE": 12,
+                      "manager_resetups": 6},
+              "cls": {"interior": 15, "sentinel-1": 6, "sentinel-0": 2,
+                      "history:mutate-resetup": 5}},
     "thorough": {"distinct_nontrivial": 1200,
-                 "mon": {"findvwLTE": 1600, "scan_matchings": 30000},
-                 "cls": {"interior": 300, "sentinel-1": 200, "sentinel-0": 40}},
+                 "mon": {"findvwLTE": 1600, "scan_matchings": 30000,
+                         "manager.wallSpeedLTE": 100, "manager_resetups": 50},
+                 "cls": {"interior": 300, "sentinel-1": 200, "sentinel-0": 40,
+                         "history:mutate-resetup": 40}},
 }
 
 
@@ -71,6 +76,20 @@ def generate(tier, seed):
             spec = E.random_spec(rng)
         cases.append({"i": i, "spec": spec, "setting": int(rng.integers(len(SETTINGS))),
                       "s": int(rng.integers(1 << 30))})
+    # manager-level histories on numerically traced potentials: the velocity handed out by
+    # WallGoManager.wallSpeedLTE() must be the LTE velocity of the model *as it is now*
+    rng2 = np.random.default_rng(5500 + seed)
+    for i in range(8 if tier == "quick" else 60):
+        pspec = P.random_poly1(rng2)
+        ops = [str(x) for x in rng2.choice(["mutate-resetup", "resetup", "mutate-reregister",
+                                             "mutate-resetup-newTn"],
+                                            size=int(rng2.integers(1, 4)),
+                                            p=[0.55, 0.15, 0.15, 0.15])]
+        if "mutate-resetup" not in ops:
+            ops[int(rng2.integers(len(ops)))] = "mutate-resetup"
+        cases.append({"i": 100000 + i, "history": True, "pspec": pspec, "ops": ops,
+                      "setting": int(rng2.integers(len(SETTINGS))),
+                      "s": int(rng2.integers(1 << 30))})
     return cases
 
 
@@ -218,10 +237,137 @@ def judge(probe, solver, vlte, scan, mon, spec, viol, classes, keys, key0, rtol,
     return obs
 
 
+def run_history_case(case):
+    """One WallGoManager driven through set-up / wallSpeedLTE / in-place parameter change /
+    set-up again ...; after every step the velocity handed out is judged on the manager's
+    *current* thermodynamics and hydrodynamics objects."""
+    from wgverif.checks import _manager as MG
+    import WallGo
+    rng = np.random.default_rng(case["s"])
+    rtol, atol = SETTINGS[case["setting"]]
+    mon = {"findvwLTE": 0, "template.findvwLTE": 0, "scan_matchings": 0,
+           "manager.wallSpeedLTE": 0, "manager_resetups": 0}
+    spec = dict(case["pspec"])
+    key0 = f"history:{case['i']}:{case['setting']}"
+    viol, classes, keys, steps = [], [], [], []
+    try:
+        built = MG.build(spec, {"hydro_rtol": rtol, "hydro_atol": atol, "phaseTracerTol": 1e-7})
+    except Exception as exc:
+        return {"key": key0, "cls": "history:setup-raised", "nontrivial": False,
+                "obs": {"error": repr(exc)[:300], "spec": spec}, "viol": [], "mon": mon}
+    manager, pot, model = built["manager"], built["pot"], built["model"]
+    Tn = built["Tn"]
+
+    def judge_now(tag):
+        try:
+            v = float(manager.wallSpeedLTE())
+        except Exception as exc:
+            classes.append("history:wallSpeedLTE-raised")
+            steps.append({"step": tag, "error": repr(exc)[:200]})
+            return
+        mon["manager.wallSpeedLTE"] += 1
+        probe = HY.HydroProbe.from_objects(manager.thermodynamics, manager.hydrodynamics,
+                                           rtol, atol, spec)
+        hyd = probe.hyd
+        lo = max(hyd.vMin, 1e-3) * (1 + 1e-6) + 1e-9
+        hi = hyd.vJ * (1 - 1e-6)
+        if hi <= lo * 1.01:
+            classes.append("history:window-empty")
+            return
+        grid = np.unique(np.concatenate([np.geomspace(lo, hi, 12), np.linspace(lo, hi, 14)]))
+        try:
+            scan = [(float(x), entropy_S(probe, float(x), mon)) for x in grid]
+        except Exception as exc:
+            classes.append("history:scan-raised")
+            steps.append({"step": tag, "vwLTE": v, "scan_error": repr(exc)[:200]})
+            return
+        n0 = len(viol)
+        try:
+            o = judge(probe, "manager", v, scan, mon, spec, viol, classes, keys,
+                      f"{key0}:{tag}", rtol, atol)
+        except Exception as exc:     # e.g. WallGoError: probe velocity outside a traced range
+            classes.append("history:judge-raised")
+            steps.append({"step": tag, "vwLTE": v, "judge_error": repr(exc)[:200]})
+            return
+        # the same question asked of the current hydrodynamics object directly
+        try:
+            v_direct = float(manager.hydrodynamics.findvwLTE())
+            mon["findvwLTE"] += 1
+            tol = 4 * (atol + rtol * max(abs(v_direct), 1e-3)) + 1e-12
+            o["direct"] = v_direct
+            if abs(v - v_direct) > tol:
+                viol.append({"mech": "manager-wallSpeedLTE-not-that-of-the-current-model",
+                             "msg": f"after {tag}: manager.wallSpeedLTE()={v!r} but "
+                             f"manager.hydrodynamics.findvwLTE()={v_direct!r} on the objects "
+                             f"the manager holds now (ops {case['ops']}, {spec})",
+                             "data": {"step": tag, "v": v, "v_direct": v_direct}})
+        except Exception as exc:
+            o["direct_error"] = repr(exc)[:200]
+        for x in viol[n0:]:
+            x["msg"] = f"[history step {tag}] " + x["msg"]
+        steps.append({"step": tag, **{k: o.get(k) for k in ("vwLTE", "direct", "S_first",
+                                                            "S_last")}})
+
+    judge_now("0:setup")
+    for k, op in enumerate(case["ops"]):
+        tag = f"{k + 1}:{op}"
+        newTn = Tn
+        if op.startswith("mutate"):
+            # change couplings in place on the registered potential object; keep T0 < Tn < Tc
+            for _ in range(50):
+                fE = 1 + float(rng.choice([-1, 1])) * float(rng.uniform(0.02, 0.06))
+                fl = 1 + float(rng.choice([-1, 1])) * float(rng.uniform(0.02, 0.06))
+                E2, l2 = pot.E * fE, pot.lam * fl
+                d = l2 * pot.D - E2 ** 2
+                if d <= 0:
+                    continue
+                Tc2 = pot.T0 * math.sqrt(l2 * pot.D / d)
+                if pot.T0 * 1.004 < Tn < Tc2 - 0.25 * (Tc2 - pot.T0):
+                    pot.E, pot.lam = E2, l2
+                    spec["E"], spec["lam"] = E2, l2
+                    break
+            else:
+                classes.append("history:no-admissible-mutation")
+                continue
+        if op.endswith("newTn"):
+            Tc2 = pot.Tc()
+            newTn = pot.T0 + float(rng.uniform(0.35, 0.8)) * (Tc2 - pot.T0)
+        if op == "mutate-reregister":
+            manager.registerModel(model)
+        ph = pot.phases(newTn)
+        if ph["high"] is None or ph["low"] is None:
+            classes.append("history:phases-missing")
+            continue
+        fs = pot.field_scale(newTn)
+        phaseInfo = WallGo.PhaseInfo(temperature=newTn,
+                                     phaseLocation1=WallGo.Fields(pot.to_code(ph["high"] + 0.01 * fs)),
+                                     phaseLocation2=WallGo.Fields(pot.to_code(ph["low"] - 0.01 * fs)))
+        Tc2 = pot.Tc()
+        scales = WallGo.VeffDerivativeSettings(
+            temperatureVariationScale=float(Tc2 - newTn if Tc2 > newTn else 0.1 * newTn),
+            fieldValueVariationScale=float(fs))
+        try:
+            manager.setupThermodynamicsHydrodynamics(phaseInfo, scales)
+        except Exception as exc:
+            classes.append("history:resetup-raised")
+            steps.append({"step": tag, "error": repr(exc)[:200]})
+            break
+        mon["manager_resetups"] += 1
+        Tn = newTn
+        judge_now(tag)
+        classes.append("history:" + op)
+    return {"key": key0, "cls": classes or ["history:undecided"], "nontrivial": bool(keys),
+            "obs": {"spec": case["pspec"], "ops": case["ops"], "steps": steps},
+            "viol": viol, "mon": mon, "keys": keys}
+
+
 def run_case(case):
+    if case.get("history"):
+        return run_history_case(case)
     spec = case["spec"]
     rtol, atol = SETTINGS[case["setting"]]
-    mon = {"findvwLTE": 0, "template.findvwLTE": 0, "scan_matchings": 0}
+    mon = {"findvwLTE": 0, "template.findvwLTE": 0, "scan_matchings": 0,
+           "manager.wallSpeedLTE": 0, "manager_resetups": 0}
     eos = E.build(spec)
     ok, why = E.admissible(eos)
     key0 = f"{spec['family']}:{case['i']}:{case['setting']}"
